@@ -302,3 +302,34 @@ def patched_uuid(k):
         yield
     finally:
         uuid.uuid4 = orig
+
+
+@contextlib.contextmanager
+def fast_solver_schedule():
+    """A legal schedule made deterministic: every assertion query is answered before the path loop
+    continues (as with a very fast solver).  Used with --early-exit, whose effect otherwise depends on
+    the race between the solver thread and the exploration."""
+    import time
+
+    import halmos.__main__ as hm
+
+    cls = hm.CounterexampleHandler
+    orig = cls.handle_assertion_violation
+
+    def patched(self, *a, **kw):
+        orig(self, *a, **kw)
+        try:
+            fut = self.submitted_futures[-1]
+            fut.result(timeout=60)
+        except Exception:  # noqa: BLE001
+            return
+        ex = self.ctx.solving_ctx.executor
+        t0 = time.time()
+        while not ex.is_shutdown() and time.time() - t0 < 0.4:
+            time.sleep(0.01)
+
+    cls.handle_assertion_violation = patched
+    try:
+        yield
+    finally:
+        cls.handle_assertion_violation = orig
